@@ -43,6 +43,22 @@ Theorem C16_union_prune_eq : forall ops : list (Interval ROps * R),
 Proof. exact union_prune_eq. Qed.
 Print Assumptions C16_union_prune_eq.
 
+(* The repaired pruning (bound = the evaluated value of the operand with the closest box) needs only
+   the lower bound, i.e. the C01 fact that the value is at least the distance to the operand's box. *)
+Theorem C16_union_prune_eq_strong : forall ops : list (Interval ROps * R),
+  ops <> [] -> Forall iv_ok ops -> Forall lower_ok ops ->
+  @evaluate ROps false Rmin ops = @evaluate_slow ROps Rmin ops.
+Proof. exact union_prune_eq_strong. Qed.
+Print Assumptions C16_union_prune_eq_strong.
+
+(* The pinned algorithm pruned by overlap of the box distance intervals and was wrong for an operand
+   with no solid point in its box (e.g. an intersection that removes everything). *)
+Theorem C16_union_prune_pinned_refuted :
+  Forall iv_ok pinned_witness /\ Forall lower_ok pinned_witness /\
+  @evaluate_pinned ROps Rmin pinned_witness = 5 /\ @evaluate_slow ROps Rmin pinned_witness = 5 / 2.
+Proof. split; [apply pinned_witness_hyps | split; [apply pinned_witness_hyps | exact union_prune_pinned_refuted]]. Qed.
+Print Assumptions C16_union_prune_pinned_refuted.
+
 (* With any blend function installed the repaired Evaluate is the exhaustive evaluation. *)
 Theorem C16_union_blend_eq : forall minf (ops : list (Interval ROps * R)),
   @evaluate ROps true minf ops = @evaluate_slow ROps minf ops.
